@@ -2,6 +2,7 @@ import Driver.Util
 import Driver.Filter
 import Driver.Syntax
 import Driver.Eval
+import Driver.Settings
 namespace Driver
 
 def dispatch (line : String) : String :=
@@ -9,6 +10,7 @@ def dispatch (line : String) : String :=
   | "xxh" :: rest => (handleXxh rest).getD "bad-op"
   | "pout" :: rest => (handlePout rest).getD "bad-op"
   | "parse" :: rest => (handleParse rest).getD "bad-op"
+  | "settings" :: rest => (handleSettings rest).getD "bad-op"
   | "eval" :: rest => (handleEval rest).getD "bad-op"
   | "rt" :: rest => (handleRt rest).getD "bad-op"
   | "part" :: rest => (handlePart rest).getD "bad-op"
